@@ -137,6 +137,14 @@ func toRefPES(h *astits.PESHeader, sid uint8) *ref.PESHdr {
 		r.PTS = u64p(o.PTS)
 	case astits.PTSDTSIndicatorBothPresent:
 		r.PTS, r.DTS = u64p(o.PTS), u64p(o.DTS)
+	case 1: // forbidden value: nothing follows; a timestamp decoded nevertheless is shown
+		r.Ind01 = true
+		if o.PTS != nil {
+			r.PTS = u64p(o.PTS)
+		}
+		if o.DTS != nil {
+			r.DTS = u64p(o.DTS)
+		}
 	}
 	if o.HasESCR {
 		r.ESCR = toRefPCR(o.ESCR)
